@@ -6,6 +6,7 @@ import BppModel.Text.TextToolsU
 import BppModel.Text.TokenizerU
 import BppModel.Text.KeyvalU
 import BppModel.Text.AttrU
+import BppModel.Text.TableU
 import BppModel.Text.Vars
 /-
 Driver for C16 (text and option parsing never crashes, corrupts memory or hangs).
@@ -310,8 +311,12 @@ def step (s : Unit) (op : List String) (impl : Option (List String)) : Unit × S
     | some d =>
       (s, showR (fun (r : Bool × Bool × Str × Str) => showBool r.1 ++ " " ++ showBool r.2.1) (readDescription d), classVerdict impl)
     | none => bad
+  | ["dt.read", ht, hsp, hd, rn] =>
+    match unhex ht, unhex hsp, int? rn with
+    | some txt, some sp, some rn =>
+      (s, showR (fun (rc : Nat × Nat) => "ok " ++ toString rc.1 ++ " " ++ toString rc.2) (readTable txt sp (bool? hd) rn), classVerdict impl)
+    | _, _, _ => bad
   -- entry points that are not modelled: only the outcome class of the implementation is judged
-  | "dt.read" :: _ => (s, "?", classVerdict impl)
   | "dd.read" :: _ => (s, "?", classVerdict impl)
   | "nc.vec" :: _ => (s, "?", classVerdict impl)
   | "nc.seq" :: _ => (s, "?", classVerdict impl)
